@@ -93,7 +93,12 @@ def run_shard(ctx):
                     cls = rng.choice(["local", "local", "base"])
                     algo = rng.choice(["md5", "md5", "md5", "md5-dos2unix", "sha256", "blake3"]) if i else rng.choice(["md5", "md5", "md5-dos2unix"])
                     root = os.path.join(d, f"store{i}")
-                    odb = env.odb_of_class(cls, root, state=state if rng.random() < 0.7 else None, hash_name=algo)
+                    # stores are sometimes opened through a legal non-canonical spelling of their path
+                    spelling = rng.choice(["canonical"] * 4 + ["trailing-slash", "double-slash", "dot"])
+                    opened = {"canonical": root, "trailing-slash": root + "/", "double-slash": d + "//" + f"store{i}", "dot": d + "/./" + f"store{i}"}[spelling]
+                    if spelling != "canonical":
+                        res.count("stores_opened_through_non_canonical_path")
+                    odb = env.odb_of_class(cls, opened, state=state if rng.random() < 0.7 else None, hash_name=algo)
                     st = {"name": f"s{i}", "cls": cls, "algo": algo, "root": root, "odb": odb}
                     stores.append(st)
                     cur["stores"][os.path.abspath(root)] = st
